@@ -384,6 +384,11 @@ MultiEnd ==
 MultiAbort(j) ==
     /\ Running /\ ctl.mode = "multi" /\ j \in 1..ctl.k /\ ctl.ab < MaxAborts
     /\ procs[j].state = "finished" /\ procs[j].todo = <<>> /\ procs[0].todo = <<>>
+    \* history-level exploration (Atomic) follows the plain loop of single_process=True, which the history replays
+    \* use: writers before j have finished, writers after j were never run; at file-system granularity the call
+    \* is the process pool's, where the other writers are terminated in whatever state they are
+    /\ Atomic => /\ \A p \in 1..j : procs[p].state = "finished"
+                 /\ \A p \in (j + 1)..ctl.k : procs[p].state = "writing" /\ procs[p].nw = 0
     /\ procs' = [p \in P |-> IF p = 0 THEN procs[0] ELSE IdleProc]
     /\ ctl' = [mode |-> "idle", k |-> 0, used |-> ctl.used, loc |-> ctl.loc, cr |-> ctl.cr, ab |-> ctl.ab + 1]
     /\ UNCHANGED <<files, dirs, mem, nextEx, nextShard, nsess, wlog, done, callerMd, crashed, failed, rd>>
